@@ -83,12 +83,6 @@ func (t *Text) GenerateOutput(textOnly bool) string {
 		clonedRoot = div
 	}
 
-	// Table parts can't live outside a table either: when the distilled HTML is parsed
-	// they are dropped and the text of neighbouring cells is glued into one word.
-	if isTablePart(dom.TagName(clonedRoot)) {
-		replaceOrphanTableParts(clonedRoot)
-	}
-
 	// Retain parent tags until the root is not an inline element, to make sure the
 	// style is display:block.
 	var srcRoot *html.Node
@@ -113,6 +107,13 @@ func (t *Text) GenerateOutput(textOnly bool) string {
 		parentClone := dom.Clone(srcRoot, false)
 		dom.AppendChild(parentClone, clonedRoot)
 		clonedRoot = parentClone
+	}
+
+	// Table parts can't live outside a table either: when the distilled HTML is parsed
+	// they are dropped and the text of neighbouring cells is glued into one word. (Checked
+	// after the parents were retained: the block found for an inline root may be a cell.)
+	if isTablePart(dom.TagName(clonedRoot)) {
+		replaceOrphanTableParts(clonedRoot)
 	}
 
 	// Make sure links are absolute and IDs are gone.
